@@ -1096,7 +1096,7 @@ pub fn properties() -> Vec<Property> {
   vec![
     Property {
       id: "C02",
-      rule: "cases = one source (cold script of 0..8 items over -3..6 ending in complete / error / silence, or a creation function) under a chain of 1..4 (thorough 6) single-source operators with parameters 0..5 and functions from the fixed family; oracle = exact trace equality with the reference interpreter (+ tap log, defer/start factory calls); non-trivial = chain length >= 2 or a boundary parameter (0, 1, len-1, len, len+1) or an empty / erroring / silent input; large: the same chains (1..3 operators) over inputs of up to 60 scripted / 300 generated items with count parameters from {0..9, 10..70, 127..129, 255..257, 300, 65535, 65536, u32::MAX, u32::MAX+1, isize::MAX, isize::MAX+1, usize::MAX-1, usize::MAX}, non-trivial = size > 40",
+      rule: "cases = one source (cold script of 0..8 items over -3..6 ending in complete / error / silence, or a creation function) under a chain of 1..4 (thorough 6) single-source operators (window_with_count / group_by seen through flat_map: all items tagged, counts per window, or with inner subscribers that leave after one item) with parameters 0..5 and functions from the fixed family; oracle = exact trace equality with the reference interpreter (+ tap log, defer/start factory calls); non-trivial = chain length >= 2 or a boundary parameter (0, 1, len-1, len, len+1) or an empty / erroring / silent input; large: the same chains (1..3 operators) over inputs of up to 60 scripted / 300 generated items with count parameters from {0..9, 10..70, 127..129, 255..257, 300, 65535, 65536, u32::MAX, u32::MAX+1, isize::MAX, isize::MAX+1, usize::MAX-1, usize::MAX}, non-trivial = size > 40",
       assumptions: vec!["reference interpreter harness/src/model.rs with the conventions of DESIGN.md 2.5", "take(0) follows the crate (completes at the first item)"],
       subs: vec![
         mk_sub("chains", (2000, 40_000), c02_strategy, c02_check),
